@@ -131,8 +131,11 @@ def suite_kernels(tier: str, seed: int, mult: int) -> SuiteResult:
         n_cases = (300 if tier == "quick" else 5000) * mult
         for k in range(n_cases):
             nbytes = rng.choice([1, 2, 3, 7, 8, 9, 16, 32, 63, 64, 65, 128, 192, 256])
-            n = rng.randint(1, 9)
-            dens = rng.choice([0.0, 0.1, 0.5, 0.9, 1.0])
+            # mostly small sets; every 12th case a set whose column sums need the full counter width (128..260 rows)
+            n = rng.randint(1, 9) if k % 12 else rng.choice([128, 150, 200, 255, 256, 260])
+            if n > 9:
+                nbytes = rng.choice([1, 2, 3, 8, 9])
+            dens = rng.choice([0.0, 0.1, 0.5, 0.9, 1.0]) if n <= 9 else rng.choice([0.5, 0.7, 0.9, 1.0])
             Xb = (nrng.random((n, nbytes * 8)) < dens).astype(np.uint8)
             X = np.packbits(Xb, axis=1)
             mis = rng.choice([0, 0, 1, 3, 4, 7])
@@ -176,6 +179,19 @@ def suite_kernels(tier: str, seed: int, mult: int) -> SuiteResult:
                 a, b = K.centroid(ls, nn, pack), pysim.centroid_from_sum(ls, nn, pack=pack)
                 if a.tolist() != np.asarray(b).tolist():
                     fail("C13:centroid-differs", f"n={nn} pack={pack}", {"n": nn, "ls": ls.tolist()[:64]})
+            # the same sums held in the narrowest unsigned dtype, as the tree holds them (pybind11 casts them to uint64
+            # for the kernel; the fallback receives them as they are), at counts around the width boundaries
+            from bblean.utils import min_safe_uint as _msu
+            nw = rng.choice([127, 128, 200, 255, 256, 32767, 32768, 65535, 65536])
+            lsw = np.asarray([rng.choice([0, nw, nw // 2, (nw + 1) // 2, rng.randint(0, nw)]) for _ in range(F)], dtype=_msu(nw))
+            cnt["narrow_sums"] = cnt.get("narrow_sums", 0) + 1
+            for pack in (True, False):
+                a, b = K.centroid(lsw, nw, pack), pysim.centroid_from_sum(lsw, nw, pack=pack)
+                if a.tolist() != np.asarray(b).tolist():
+                    fail("C13:centroid-differs-on-narrow-dtype-sums", f"n={nw} dtype={lsw.dtype} pack={pack}", {"n": nw, "ls": lsw.tolist()[:64]})
+            a, b = K.isim(lsw, nw), pysim.jt_isim_from_sum(lsw, nw)
+            if bits(a) != bits(b) and not (a != a and b != b):
+                fail("C13:isim-from-sum-differs-on-narrow-dtype-sums", f"{a!r} vs {b!r}", {"n": nw, "ls": lsw.tolist()[:64]})
             cnt["isim"] += 1
             a, b = K.isim(ls, nn), pysim.jt_isim_from_sum(ls, nn)
             if bits(a) != bits(b) and not (a != a and b != b):
